@@ -84,14 +84,18 @@ def strat_containers(draw, tier="quick"):
     n = draw(st.integers(2, 6))
     srcs = []
     if kind != "unbinned":
+        unit = draw(st.sampled_from([1.0, 1.0, 1.0, 1e-6, 1e-10, 1e4]))  # uncertainties in a small / large unit (what is written must not depend on it)
         for i in range(draw(st.integers(0, 3))):
-            s = draw(S.source(n, f"s{i}", "data", draw(st.sampled_from(["x", "y"])) if kind == "xy" else None, 0.3))
+            s = draw(S.source(n, f"s{i}", "data", draw(st.sampled_from(["x", "y"])) if kind == "xy" else None, 0.3 * unit))
             if s["kind"] == "simple" and not s.get("scalar") and draw(st.booleans()):
                 # nearly constant vector: must not be collapsed into a scalar
                 base = s["err"][0]
                 s["err"] = [base * (1 + 1e-7 * (j + 1)) for j in range(len(s["err"]))]
                 s["nearly_constant"] = True
             srcs.append(s)
+        if srcs and draw(st.integers(0, 3)) == 0:
+            for s in srcs:  # every source switched off: they are still sources of the container
+                s["enabled"] = False
     return {"kind": kind, "n": n, "values": draw(st.lists(st.floats(0.5, 20), min_size=n, max_size=n)), "values2": draw(st.lists(st.floats(-20, 20), min_size=n, max_size=n)),
             "sources": srcs, "label": draw(st.one_of(st.none(), st.sampled_from(["my data", "Messung 1"]))), "x_label": draw(st.one_of(st.none(), st.just("t [s]"))),
             "y_label": draw(st.one_of(st.none(), st.just("U [V]"))), "under": draw(st.integers(0, 5)), "over": draw(st.integers(0, 5)),
